@@ -57,3 +57,19 @@ package binary
 //gvc:  results value err
 //gvc:  ensures anylen: err != bufio.ErrBufferFull
 //gvc:end
+
+// WriteUint64 / WriteUint32: encoding/binary.Write of a fixed-size value
+// writes exactly its size in one Write call (trusted: encoding/binary).
+//gvc:func WriteUint64
+//gvc:  trusted
+//gvc:  modifies w.#sink
+//gvc:  ensures size: result == nil ==> w.#wlen == old(w.#wlen) + 8
+//gvc:  ensures most: w.#wlen <= old(w.#wlen) + 8
+//gvc:end
+
+//gvc:func WriteUint32
+//gvc:  trusted
+//gvc:  modifies w.#sink
+//gvc:  ensures size: result == nil ==> w.#wlen == old(w.#wlen) + 4
+//gvc:  ensures most: w.#wlen <= old(w.#wlen) + 4
+//gvc:end
